@@ -100,7 +100,9 @@ def run_case(ctx, case, d):
     V = parse_vcf(Vp, samples)
     # ---- haplotag
     tagged = os.path.join(d, "tagged.bam")
-    rc, _, se, _ = W(["haplotag", "-o", tagged, "--reference", fa, c17_gen.bgzip_index(Vp), bam])
+    bx = ["--linked-read-distance-cutoff", case["bx_cutoff"]] if case.get("bx_cutoff") else []
+    ctx.dist("linked_reads", bool(bx))
+    rc, _, se, _ = W(["haplotag", "-o", tagged, "--reference", fa, c17_gen.bgzip_index(Vp), bam] + bx)
     if rc != 0:
         return bad("haplotag", se)
     import pysam
